@@ -19,7 +19,15 @@ fn any_elem() -> BaseElement {
     BaseElement::from_mont(a)
 }
 
-//# harness: fn=f64 TryFrom<u64>, TryFrom<u128>, TryFrom<usize>, TryFrom<[u8; 8]>; label=complete; tier=quick
+/// Stands for `BaseElement::new` in the decoder harnesses: an injective tag of the argument, so that
+/// "the decoder returns new(value)" is checked without asking SAT to multiply (the contract of
+/// `new` itself — canonical result, value preserved — is the Verus unit f64_core).
+fn stub_new(value: u64) -> BaseElement {
+    BaseElement(value.rotate_left(17) ^ 0x5bd1_e995_9e37_79b9)
+}
+
+//# harness: fn=f64 TryFrom<u64>, TryFrom<u128>, TryFrom<usize>, TryFrom<[u8; 8]>; label=complete; tier=quick; replay=no
+#[cfg_attr(kani, kani::stub(BaseElement::new, stub_new))]
 #[cfg_attr(kani, kani::proof)]
 #[cfg_attr(kani, kani::stub(alloc::fmt::format, vs::fake_format))]
 pub fn k_c11_f64_try_from_ints() {
@@ -45,7 +53,8 @@ pub fn k_c11_f64_try_from_ints() {
     vreach!("C11.f64.ints.reach");
 }
 
-//# harness: fn=f64 TryFrom<&[u8]>, Randomizable::from_random_bytes, Deserializable::read_from; label=complete (every slice length 0..=17, every content); tier=quick
+//# harness: fn=f64 TryFrom<&[u8]>, Randomizable::from_random_bytes, Deserializable::read_from; label=complete (every slice length 0..=17, every content); tier=quick; replay=no
+#[cfg_attr(kani, kani::stub(BaseElement::new, stub_new))]
 #[cfg_attr(kani, kani::proof)]
 #[cfg_attr(kani, kani::unwind(10))]
 #[cfg_attr(kani, kani::stub(alloc::fmt::format, vs::fake_format))]
@@ -72,7 +81,8 @@ pub fn k_c11_f64_try_from_bytes() {
     vreach!("C11.f64.bytes.reach");
 }
 
-//# harness: fn=f64 Serializable::write_into, as_int, From<BaseElement> for u64/u128, TryFrom<BaseElement> for u8/u16/u32/bool; label=complete; tier=quick
+//# harness: fn=f64 Serializable::write_into, as_int, From<BaseElement> for u64/u128, TryFrom<BaseElement> for u8/u16/u32/bool; label=complete; tier=quick; replay=no
+#[cfg_attr(kani, kani::stub(BaseElement::new, stub_new))]
 #[cfg_attr(kani, kani::proof)]
 #[cfg_attr(kani, kani::unwind(10))]
 #[cfg_attr(kani, kani::stub(alloc::fmt::format, vs::fake_format))]
@@ -91,7 +101,8 @@ pub fn k_c11_f64_encode_and_int_conversions() {
     vreach!("C11.f64.encode.reach");
 }
 
-//# harness: fn=f64 From<u8/u16/u32/bool>; label=complete; tier=quick
+//# harness: fn=f64 From<u8/u16/u32/bool>; label=complete; tier=quick; replay=no
+#[cfg_attr(kani, kani::stub(BaseElement::new, stub_new))]
 #[cfg_attr(kani, kani::proof)]
 pub fn k_c11_f64_from_small_ints() {
     let (a, b, c, d) = (vs::any_u8(), vs::any_u16(), vs::any_u32(), vs::any_bool());
